@@ -104,6 +104,8 @@ def builtins():
         v, cls = args
         names = [c.name for c in (cls.items if isinstance(cls, TupleV) else [cls])]
         kind = {'IntV': 'int', 'BoolV': 'bool', 'StrV': 'str', 'TupleV': 'tuple', 'ListV': 'list'}.get(type(v).__name__)
+        if isinstance(v, ObjV) and getattr(v, 'isinstance_fn', None) is not None:
+            return BoolV(v.isinstance_fn(names))
         if isinstance(v, ObjV):
             kind = v.cls
         if kind is None:
@@ -166,11 +168,39 @@ def builtins():
 
     def _map(p, args, kw):
         f, it = args
+        call = lambda x: p.interp.call(f, [x], {})
+        if isinstance(it, ObjV) and '__iter__' in it.fields:
+            it = p.interp.call(it.fields['__iter__'], [it], {})
         if isinstance(it, (TupleV, ListV)):
-            return ListV([f.fn(p, [x], {}) if isinstance(f, FuncV) else _call_class(p, f, x) for x in it.items])
+            return ListV([call(x) for x in it.items])
         if isinstance(it, (IterV, SeqV)):
-            return IterV(lambda t: f.fn(p, [it.at(t)], {}), it.length, 'map(%s)' % it.name)
+            return IterV(lambda t: call(it.at(t)), it.length, 'map(%s)' % it.name)      # lazy: evaluated per element on demand
         raise Unsupported('map over %r' % (it,))
+
+    def _zip(p, args, kw):
+        if all(isinstance(a, (TupleV, ListV)) for a in args):
+            return ListV([TupleV(list(t)) for t in zip(*[a.items for a in args])])
+        raise Unsupported('zip of non-concrete sequences')
+
+    def _range(p, args, kw):
+        if len(args) != 1 or not isinstance(args[0], IntV):
+            raise Unsupported('range with other than one int argument')
+        return IterV(lambda t: IntV(t), args[0].t, 'range')
+
+    def _all(p, args, kw):
+        (it,) = args
+        if not isinstance(it, (IterV, SeqV)):
+            raise Unsupported('all of %r' % (it,))
+        from z3 import Bool, ForAll, Int as _Int
+        n = next(p.eng.counter)
+        res = Bool('all!%d' % n)
+        w = _Int('all.w!%d' % n)
+        t = _Int('all.t!%d' % n)
+        from pyvc.engine import truthy
+        # all(...) holds iff every element is truthy: (res -> forall t) and (not res -> a witness w)
+        p.assume(Implies(res, ForAll([t], Implies(And(0 <= t, t < it.length), truthy(it.at(t))))))
+        p.assume(Implies(Not(res), And(0 <= w, w < it.length, Not(truthy(it.at(w))))))
+        return BoolV(res)
 
     def _call_class(p, f, x):
         raise Unsupported('map with %r' % (f,))
@@ -184,7 +214,8 @@ def builtins():
             return v.fields['__set__'].fn(p, [v], {})
         raise Unsupported('set of %r' % (v,))
 
-    return {'map': FuncV('map', _map), 'set': FuncV('set', _set),
+    return {'map': FuncV('map', _map), 'set': FuncV('set', _set), 'zip': FuncV('zip', _zip), 'range': FuncV('range', _range),
+            'all': FuncV('all', _all),
             'enumerate': FuncV('enumerate', _enumerate), 'reversed': FuncV('reversed', _reversed),
             'isinstance': FuncV('isinstance', _isinstance), 'len': FuncV('len', _len), 'next': FuncV('next', _next),
             'tuple': FuncV('tuple', _tuple), 'list': FuncV('list', _list),
